@@ -283,6 +283,11 @@ func (h *Handler) ProcessPacket(frame packet.Frame) error {
 		return err
 	}
 
+	// Close() was called: no spoofing on the receive path either
+	if h.closed {
+		return nil
+	}
+
 	// skip link local packets
 	if arpFrame.SrcIP().IsLinkLocalUnicast() || arpFrame.DstIP().IsLinkLocalUnicast() {
 		if Logger.IsDebug() {
